@@ -513,6 +513,10 @@ class EQLTranslator:
         if isinstance(column.type, sqlalchemy.TypeDecorator):
             # the stored form says nothing about the truth value of the object it stands for: only None is falsy
             return column.is_not(None)
+        if isinstance(column.type, sqlalchemy.JSON):
+            raise UnsupportedQueryTypeError(
+                "The truth value of a JSON (list / dict) column cannot be translated."
+            )
         if isinstance(column.type, sqlalchemy.String):
             # a text column as condition is cast to a number by the database; bool(str) is "not empty"
             return column != ""
